@@ -866,7 +866,18 @@ static void tecmpEnumerate(const TTask& t, bool thorough, Fn fn)
                 fn(ref::tecmpFrame(h, p));
                 if (k == 0)
                     for (size_t cut = 1; cut < p.size(); ++cut)   // payload shorter than the 36-byte status header
+                    {
                         fn(ref::tecmpFrame(h, Bytes(p.begin(), p.begin() + cut)));
+                        // ... that also ANNOUNCES less vendor data than the status header needs (payload bytes 4..5)
+                        if (cut >= 6)
+                            for (uint16_t vdl : {(uint16_t) 0, (uint16_t) 1, (uint16_t) 3, (uint16_t) 5, (uint16_t) 12, (uint16_t) (cut - 12), (uint16_t) 0xFFFF})
+                            {
+                                Bytes q(p.begin(), p.begin() + cut);
+                                q[4] = (uint8_t) (vdl >> 8);
+                                q[5] = (uint8_t) vdl;
+                                fn(ref::tecmpFrame(h, q));
+                            }
+                    }
             }
     }
     else if (t.part == 'B')   // bus status: entry count t.a
@@ -1393,6 +1404,53 @@ int main(int argc, char** argv)
                               w.add(mc::C_TRACES, 1);
                               w.add(mc::C_STATES, h.size());
                           }
+                      });
+        }
+        // the typed-payload generator of C03 through the decoder: the payload validators run on the caller's buffer (message at
+        // the very end of an exact-size frame) and on the reassembly buffer (payload split over two segments)
+        {
+            struct T { int cls; size_t len; };
+            std::vector<T> ts;
+            for (int cls = 0; cls < 7; ++cls)
+                for (size_t l : c03Lengths(kCls[cls].hdr, thorough))
+                    ts.push_back({cls, l});
+            run.round("typed payloads (7 classes x lengths x backgrounds x inner length fields) as the last message of an exact-size frame, and split over two segments", ts.size(),
+                      [&, ts](W& w, uint64_t o) {
+                          const T& t = ts[o];
+                          c03Buffers(t.cls, t.len, [&](const Bytes& b) {
+                              if (b.size() > 65535)
+                                  return;
+                              for (int split = 0; split < 2; ++split)
+                              {
+                                  if (split && b.size() < 2)
+                                      continue;
+                                  std::vector<Buf> h;
+                                  ref::FrameHdr fh;
+                                  fh.device = 3; fh.stream = 4; fh.msgType = kCls[t.cls].mt; fh.seq = 65535;
+                                  if (!split)
+                                  {
+                                      Buf x;
+                                      x.base = ref::buildFrame(fh, {ref::mkMsg(kCls[t.cls].pt, b, 0, 11, 12)});
+                                      h.push_back(x);
+                                  }
+                                  else
+                                  {
+                                      size_t cut = b.size() / 2;
+                                      Buf x, y;
+                                      x.base = ref::buildFrame(fh, {ref::mkMsg(kCls[t.cls].pt, Bytes(b.begin(), b.begin() + cut), (uint8_t) (ref::SEG_FIRST << 2), 11, 12)});
+                                      fh.seq = 0;
+                                      y.base = ref::buildFrame(fh, {ref::mkMsg(kCls[t.cls].pt, Bytes(b.begin() + cut, b.end()), (uint8_t) (ref::SEG_LAST << 2), 11, 12)});
+                                      h.push_back(x);
+                                      h.push_back(y);
+                                  }
+                                  auto desc = [&] { return showHist(0, h); };
+                                  if (!w.begin_case(desc))
+                                      continue;
+                                  judgeC02(w, 0, h);
+                                  w.add(mc::C_TRACES, 1);
+                                  w.add(mc::C_STATES, h.size());
+                              }
+                          });
                       });
         }
         run.round("histories: all ordered pairs of the sub-corpus on one decoder", ctx.sub.size(), [&](W& w, uint64_t o) {
